@@ -13,18 +13,28 @@ import (
 	"math/rand"
 	"sort"
 	"strings"
+	"unicode/utf8"
 )
 
 // jv is a JSON value. k: 'z' null, 't'/'f' bool, 'i' integer literal (n = decimal digits),
 // 'd' fractional/exponent form (n = "<mantissa>e<exp>", mantissa without trailing zeros),
 // 's' string, 'a' array, 'o' object.
+// Token form: strings are s<hex of the string>, or q<hex of the literal's body> when the value carries
+// a spelling; member names likewise <hex> or q<hex of body>.
 type jv struct {
 	k byte
 	n string
 	s string
 	a []jv
 	o []jmem
+	// spelling (wire text level): q, when set, is the body of the string literal as a foreign peer
+	// wrote it (any mix of raw characters, short escapes, \uXXXX, surrogate pairs) and s the string it
+	// denotes; oq[i], when it belongs to o[i] (same key), is the spelled body of that member name.
+	q  *string
+	oq []jkq
 }
+
+type jkq struct{ k, body string }
 
 type jmem struct {
 	k string
@@ -52,6 +62,24 @@ func (v jv) get(k string) (jv, bool) {
 	return jv{}, false
 }
 
+// keyBody returns the spelled body of member i's name, if it has one.
+func (v jv) keyBody(i int) (string, bool) {
+	if len(v.oq) == len(v.o) && v.oq[i].k == v.o[i].k && v.oq[i].body != "" {
+		return v.oq[i].body, true
+	}
+	return "", false
+}
+
+// denoteBody: the string a literal body denotes, by Go's decoder (used for sorting and lookups in
+// the harness only; the model has its own `unquote`).
+func denoteBody(body string) (string, bool) {
+	var s string
+	if err := json.Unmarshal([]byte("\""+body+"\""), &s); err != nil {
+		return "", false
+	}
+	return s, true
+}
+
 // tok prints the canonical token form: object members sorted by key, last duplicate wins.
 func (v jv) tok() string {
 	var b strings.Builder
@@ -68,7 +96,11 @@ func (v jv) tokTo(b *strings.Builder) {
 	case 'd':
 		b.WriteString("d" + v.n)
 	case 's':
-		b.WriteString("s" + hex.EncodeToString([]byte(v.s)))
+		if v.q != nil {
+			b.WriteString("q" + hex.EncodeToString([]byte(*v.q)))
+		} else {
+			b.WriteString("s" + hex.EncodeToString([]byte(v.s)))
+		}
 	case 'a':
 		b.WriteString("a[")
 		for _, x := range v.a {
@@ -89,7 +121,11 @@ func (v jv) tokTo(b *strings.Builder) {
 		b.WriteString("o{")
 		for _, k := range keys {
 			b.WriteByte(' ')
-			b.WriteString(hex.EncodeToString([]byte(k)))
+			if body, ok := v.keyBody(last[k]); ok {
+				b.WriteString("q" + hex.EncodeToString([]byte(body)))
+			} else {
+				b.WriteString(hex.EncodeToString([]byte(k)))
+			}
 			b.WriteByte(' ')
 			v.o[last[k]].v.tokTo(b)
 		}
@@ -149,7 +185,11 @@ func (v jv) textTo(b *bytes.Buffer) {
 			fmt.Fprintf(b, "%se%d", m, x)
 		}
 	case 's':
-		b.Write(jsonString(v.s))
+		if v.q != nil {
+			b.WriteString("\"" + *v.q + "\"")
+		} else {
+			b.Write(jsonString(v.s))
+		}
 	case 'a':
 		b.WriteByte('[')
 		for i, x := range v.a {
@@ -165,7 +205,11 @@ func (v jv) textTo(b *bytes.Buffer) {
 			if i > 0 {
 				b.WriteByte(',')
 			}
-			b.Write(jsonString(m.k))
+			if body, ok := v.keyBody(i); ok {
+				b.WriteString("\"" + body + "\"")
+			} else {
+				b.Write(jsonString(m.k))
+			}
 			b.WriteByte(':')
 			m.v.textTo(b)
 		}
@@ -325,7 +369,23 @@ func (p *tokStream) jv() (jv, bool) {
 			if p.done() {
 				return jv{}, false
 			}
-			k, ok := unhex(p.next())
+			kt := p.next()
+			var kq jkq
+			if strings.HasPrefix(kt, "q") {
+				body, ok := unhex(kt[1:])
+				if !ok {
+					return jv{}, false
+				}
+				k, ok := denoteBody(body)
+				if !ok {
+					return jv{}, false
+				}
+				kq = jkq{k, body}
+			}
+			k, ok := kq.k, true
+			if kq.body == "" {
+				k, ok = unhex(kt)
+			}
 			if !ok {
 				return jv{}, false
 			}
@@ -334,6 +394,7 @@ func (p *tokStream) jv() (jv, bool) {
 				return jv{}, false
 			}
 			out.o = append(out.o, jmem{k, e})
+			out.oq = append(out.oq, kq)
 		}
 		p.next()
 		return out, true
@@ -344,6 +405,13 @@ func (p *tokStream) jv() (jv, bool) {
 	case strings.HasPrefix(t, "s"):
 		s, ok := unhex(t[1:])
 		return jStr(s), ok
+	case strings.HasPrefix(t, "q"):
+		body, ok := unhex(t[1:])
+		if !ok {
+			return jv{}, false
+		}
+		s, ok := denoteBody(body)
+		return jv{k: 's', s: s, q: &body}, ok
 	}
 	return jv{}, false
 }
@@ -375,7 +443,8 @@ func otok(v *jv) string {
 
 // ---- generators
 
-var genStrings = []string{"", "a", "ping", "x y", "é", "日本語", " ", "q\"uote", "back\\slash", "nl\nin", "tab\t", "\u0001", "\U0001F600", "null", "0", " lead", "trail ", "résumé/名前"}
+var genStrings = []string{"", "a", "ping", "x y", "é", "日本語", " ", "q\"uote", "back\\slash", "nl\nin", "tab\t", "\u0001", "\U0001F600", "null", "0", " lead", "trail ", "résumé/名前",
+	"a/b", "req/1", "</x>&", "\b\f\r", "\u007f", "\u2028\u2029", "\ud7ff\ue000", "\uffff", "\U00010000", "\U0010FFFF", "x\U0001F600/\U0001F601y", "\\u0041", "\\/"}
 
 func genStr(r *rand.Rand) string {
 	if r.Intn(4) == 0 {
@@ -387,6 +456,130 @@ func genStr(r *rand.Rand) string {
 		return string(b)
 	}
 	return genStrings[r.Intn(len(genStrings))]
+}
+
+// ---- spellings of string literals (what a foreign peer may put on the wire)
+
+var shortEscOf = map[rune]byte{'"': '"', '\\': '\\', '/': '/', '\b': 'b', '\f': 'f', '\n': 'n', '\r': 'r', '\t': 't'}
+
+func hex4(r *rand.Rand, v rune) string {
+	const lo, up = "0123456789abcdef", "0123456789ABCDEF"
+	var b [4]byte
+	for i := 0; i < 4; i++ {
+		d := (v >> uint(12-4*i)) & 15
+		if r.Intn(2) == 0 {
+			b[i] = lo[d]
+		} else {
+			b[i] = up[d]
+		}
+	}
+	return "\\u" + string(b[:])
+}
+
+// spellBody writes s as the body of a JSON string literal, choosing for every character at random
+// among the spellings RFC 8259 allows for it: raw (not for controls, quote, backslash), the short
+// escape (for the eight characters that have one, '/' included), \uXXXX with digits of either case
+// (basic plane), a UTF-16 surrogate pair (beyond it). esc = percentage of characters that are
+// escaped although they could stand raw. s must be valid UTF-8.
+func spellBody(r *rand.Rand, s string, esc int) string {
+	var b strings.Builder
+	for _, c := range s {
+		mustEsc := c < 0x20 || c == '"' || c == '\\'
+		if !mustEsc && r.Intn(100) >= esc {
+			b.WriteRune(c)
+			continue
+		}
+		if e, ok := shortEscOf[c]; ok && r.Intn(3) > 0 {
+			b.WriteByte('\\')
+			b.WriteByte(e)
+			continue
+		}
+		if c >= 0x10000 {
+			c -= 0x10000
+			b.WriteString(hex4(r, 0xD800+(c>>10)))
+			b.WriteString(hex4(r, 0xDC00+(c&0x3ff)))
+			continue
+		}
+		b.WriteString(hex4(r, c))
+	}
+	return b.String()
+}
+
+// spellTags names the escape forms used by the spelled tokens (q…) of an op, for the evidence histograms.
+func spellTags(op string) []string {
+	seen := map[string]bool{}
+	for _, t := range strings.Fields(op) {
+		if !strings.HasPrefix(t, "q") {
+			continue
+		}
+		body, ok := unhex(t[1:])
+		if !ok {
+			continue
+		}
+		seen["spelled"] = true
+		for i := 0; i+1 < len(body); i++ {
+			if body[i] != '\\' {
+				continue
+			}
+			switch e := body[i+1]; {
+			case e == '/':
+				seen["esc:solidus"] = true
+			case e == 'u' && i+3 < len(body) && (body[i+2] == 'd' || body[i+2] == 'D') && strings.ContainsRune("89abAB", rune(body[i+3])):
+				seen["esc:surrogate-pair"] = true
+				i += 10
+			case e == 'u':
+				seen["esc:u4"] = true
+			default:
+				seen["esc:short"] = true
+			}
+			i++
+		}
+	}
+	var out []string
+	for k := range seen {
+		out = append(out, k)
+	}
+	sort.Strings(out)
+	return out
+}
+
+func jSpelled(r *rand.Rand, s string) jv {
+	if !utf8.ValidString(s) {
+		return jStr(s)
+	}
+	body := spellBody(r, s, []int{10, 40, 100}[r.Intn(3)])
+	return jv{k: 's', s: s, q: &body}
+}
+
+// spellJ returns v with each string value and member name given a random spelling with
+// probability pct/100 (the others stay as Go's encoder writes them).
+func spellJ(r *rand.Rand, v jv, pct int) jv {
+	switch v.k {
+	case 's':
+		if v.q == nil && r.Intn(100) < pct {
+			return jSpelled(r, v.s)
+		}
+	case 'a':
+		out := jv{k: 'a'}
+		for _, x := range v.a {
+			out.a = append(out.a, spellJ(r, x, pct))
+		}
+		return out
+	case 'o':
+		out := jv{k: 'o'}
+		for i, m := range v.o {
+			kq := jkq{}
+			if body, ok := v.keyBody(i); ok {
+				kq = jkq{m.k, body}
+			} else if r.Intn(100) < pct && utf8.ValidString(m.k) && m.k != "" {
+				kq = jkq{m.k, spellBody(r, m.k, []int{10, 40, 100}[r.Intn(3)])}
+			}
+			out.o = append(out.o, jmem{m.k, spellJ(r, m.v, pct)})
+			out.oq = append(out.oq, kq)
+		}
+		return out
+	}
+	return v
 }
 
 // genNum: integers of all sizes and fractional/exponent forms (for raw pass-through positions).
